@@ -293,6 +293,8 @@ def judge(ctx, c, what, r):
 
 
 def run(ctx):
+    import source_facts
+    source_facts.check_messages(ctx)
     hs, cases = build_cases(ctx)
     ctx.notes.append("hosts: %s" % ", ".join("%s(n=%d)" % (nm, len(h["players"])) for nm, h in hs))
     jobs = []
